@@ -41,8 +41,8 @@ class Enum:
             r = strip_ref(a)
             return _root_local(r["e"]) if r.get("k") == "AddrOf" else _root_local(strip(a))
         touches_out = any(root_of(a) == self.out_id for a in args)
-        helper_fn = self.N.transparent_fn(cal, len(args)) if cal and cal != self.indent_fn and touches_out else None
-        if helper_fn is None or strip(helper_fn["body"]).get("k") != "Block":
+        helper_fn = self.N.transparent_fn(cal, len(args)) if cal and touches_out else None
+        if helper_fn is None:
             return None
         params = helper_fn.get("params", [])
         pids = [p.get("id") if p.get("k") == "Bind" else None for p in params]
@@ -64,10 +64,40 @@ class Enum:
         sub = Enum(Norm(helper_fn), bound(self.out_id), bound(self.ch_id), bound(self.level_id), self.indent_fn, None, lits)
         if sub.out_id is None:
             return None
-        paths = sub.block_paths(strip(helper_fn["body"])["b"])
+        hb = strip(helper_fn["body"])
+        paths = sub.block_paths(hb["b"]) if hb.get("k") == "Block" else sub.stmt_events(hb)
         if not paths or any(x[0] in ("unknown", "exit") for p_ in paths for x in p_):
             return None
         return paths
+
+    def indent_loop(self, e):
+        """`for _ in 0..LEVEL { OUT.push_str(LIT) }`: the indentation of a new line, wherever it is written (in the loop, in a helper). The event
+        records whether LEVEL is the formatter's level variable and the unit LIT"""
+        fl = as_for_loop(e)
+        if fl is None or self.out_id is None:
+            return None
+        pat, it, body = fl
+        b = strip(body)
+        if b.get("k") == "Block":
+            bb = b["b"]
+            items = [x["e"] for x in bb["stmts"] if x.get("k") in ("SSemi", "SExpr")] + ([bb["expr"]] if "expr" in bb else [])
+            if len(items) != 1 or len(items) != len(bb["stmts"]) + ("expr" in bb):
+                return None
+            b = strip(items[0])
+        if not (b.get("k") == "MethodCall" and cshort(b.get("callee", "")) == "String::push_str" and _root_local(b["recv"]) == self.out_id and len(b["args"]) == 1):
+            return None
+        lit = strip(b["args"][0])
+        lt = self.N.term(lit)
+        if lt[0] != "lit":
+            return None
+        rng = self.N.term(it)
+        ok = False
+        if rng[0] == "struct" and rng[1].endswith("ops::Range") and set(rng[3]) == {"start", "end"} and show(rng[3]["start"]) == "'0'":
+            end = strip(it)
+            lv = [n for n in walk(it) if n.get("k") == "Path" and n.get("r") == "local" and n.get("id") == self.level_id]
+            ok = self.level_id is not None and len(lv) == 1 and show(rng[3]["end"]) == show(self.N.term(lv[0]))
+        unit = lt[1] if isinstance(lt[1], str) else str(lt[1])
+        return ("indent", ok, e.get("sp"), unit)
 
     def stmt_events(self, e):
         """events of one expression (statement position): list of alternative paths"""
@@ -92,6 +122,9 @@ class Enum:
             el = self.stmt_events(e["else"]) if "else" in e else [[]]
             return [pre + [("cond", cdesc, True)] + p for p in th] + [pre + [("cond", cdesc, False)] + p for p in el]
         if k == "Match":
+            ind = self.indent_loop(e)
+            if ind is not None:
+                return [[ind]]
             if as_for_loop(e) is not None or e.get("src") != "Normal":
                 return [[("unknown", "loop or desugared match inside an arm", e.get("sp"))]]
             pre = self.expr_effects(e["scrut"])
@@ -142,9 +175,9 @@ class Enum:
             def root_of(a):
                 r = strip_ref(a)
                 return _root_local(r["e"]) if r.get("k") == "AddrOf" else _root_local(strip(a))
-            helper_fn = self.N.transparent_fn(cal, len(args)) if cal != self.indent_fn and touches_out else None
+            helper_fn = self.N.transparent_fn(cal, len(args)) if touches_out else None
             spliced = None
-            if helper_fn is not None and strip(helper_fn["body"]).get("k") == "Block":
+            if helper_fn is not None:
                 # a private straight-line helper working on the output on the loop's behalf: its effects are the loop's effects
                 pids = [p.get("id") if p.get("k") == "Bind" else None for p in helper_fn.get("params", [])]
                 def bound(want):
@@ -152,7 +185,8 @@ class Enum:
                     return hits[0] if len(hits) == 1 else None
                 sub = Enum(Norm(helper_fn), bound(self.out_id), bound(self.ch_id), bound(self.level_id), self.indent_fn, None)
                 if sub.out_id is not None:
-                    paths = sub.block_paths(strip(helper_fn["body"])["b"])
+                    hb = strip(helper_fn["body"])
+                    paths = sub.block_paths(hb["b"]) if hb.get("k") == "Block" else sub.stmt_events(hb)
                     if len(paths) == 1 and not any(x[0] in ("unknown", "exit") for x in paths[0]):
                         spliced = paths[0]
             if spliced is not None:
@@ -331,6 +365,7 @@ def check(ctx):
                 if len(tys) == 2 and "&mut std::string::String" in tys and any(t in INTS_ for t in tys):
                     indent_local, indent_closure = st["pat"]["id"], clo
     E = Enum(N, out_id, ch_id, level_id, indent_fn, indent_local)
+    units = []          # the unit literal of every indentation loop met on a path (in the formatter or in a helper spliced into it)
     n_paths = 0
     arms_seen = []
     for arm in m["arms"]:
@@ -340,6 +375,7 @@ def check(ctx):
         for pi, path in enumerate(paths):
             n_paths += 1
             key = "arm %s/path %d" % (label, pi)
+            units += [e[3] for e in path if e[0] == "indent" and len(e) > 3]
             conds = [("" if pol else "!") + c for k, c, pol in [e for e in path if e[0] == "cond"]]
             pushes = [e for e in path if e[0] == "push"]
             if re.fullmatch(r"'.'", label):
@@ -400,9 +436,16 @@ def check(ctx):
             ctx.expect(not why, "C15.7", key + "/level", site(arm), "indent level changes %s exactly where a multi-line scope opens/closes, before the line break" % exp["delta"],
                        "; ".join(why) + " [conditions %s]" % conds)
     ctx.count("paths through the character dispatch", n_paths, 9)
+    ctx.__dict__["_c15_units"] = units
     ctx.count("arms of the character dispatch", len(arms_seen), 8)
     ctx.expect("_" in arms_seen or "$" in arms_seen, "C15.3", "default-arm", site(m), "a default arm copies every other character", "no default arm")
-    helper(ctx, indent_fn, N, indent_closure)
+    if units:
+        wrong = sorted({u for u in units if u != "    "})
+        ctx.expect(not wrong, "C15.6", "indent-unit", fn["sp"],
+                   "four spaces per level: every indentation is `for _ in 0..level { output.push_str(\"    \") }` (empty for level <= 0); %d indentation sites on the paths" % len(units),
+                   "an indentation loop pushes %s per level instead of four spaces" % ", ".join(repr(u) for u in wrong))
+    else:
+        helper(ctx, indent_fn, N, indent_closure)
     totality(ctx, fn, level_id)
 
 
